@@ -52,7 +52,7 @@ CHECKS = {
         note="intraprocedural path checks; the set of boundary functions is a reviewed table",
         ref="DESIGN.md section 3 C11"),
     "C02": dict(
-        technique="target-feature must-dataflow on MIR (runtime detection dominance, call-graph summaries) + unsafe-site census with per-class guard obligations (incl. alignment test against the target type of every view re-typing cast) + compile_fail witnesses",
+        technique="target-feature must-dataflow on MIR (runtime detection dominance, call-graph summaries) + unsafe-site census with per-class guard obligations (incl. alignment test against the target type of every view re-typing cast) + compile_fail witnesses; guard / subtraction agreement for run-time operands in unsafe and target-feature kernels (dominating comparison of the same two values, or reviewed table)",
         text="Decides for every function and every CPU: a #[target_feature] kernel is only entered where the features are enabled "
              "or detected on every path (R-TF); every unsafe site belongs to a reviewed class whose guard obligation is re-checked "
              "(R-UNSAFE). Does not decide the index arithmetic inside SIMD kernels (class h).",
@@ -95,7 +95,7 @@ CHECKS = {
         note="19 of 30 tables were compared by hand with ISO/IEC 18181-1 (listed in tools/gen_bitspec.py), the others are snapshots marked reviewed=false",
         ref="DESIGN.md section 3 C14"),
     "C15": dict(
-        technique="symbolic affine evaluation of MIR (abstract interpretation over {x,y,w,h,1}) of the three orientation maps, coefficient comparison; control-dependence / must-pass-through for channel order; interval analysis of the operands of narrowing casts in the integer output conversions; call-graph reachability (oriented-dimension accessors unreachable from codestream-coordinate code); must-pass-through of the cursor advance in the resumable stream writer; control dependence of the integer fast path on the BitDepth discriminant; evaluation of Region::apply_orientation from MIR over concrete rectangles against the brute-force preimage",
+        technique="symbolic affine evaluation of MIR (abstract interpretation over {x,y,w,h,1}) of the three orientation maps, coefficient comparison; control-dependence / must-pass-through for channel order; interval analysis of the operands of narrowing casts in the integer output conversions; call-graph reachability (oriented-dimension accessors unreachable from codestream-coordinate code); must-pass-through of the cursor advance in the resumable stream writer; control dependence of the integer fast path on the BitDepth discriminant; evaluation of Region::apply_orientation from MIR over concrete rectangles against the brute-force preimage; evaluation of the sample <-> float output conversions from MIR against their definition",
         text="Decides the coordinate-map half for all sizes and coordinates: for each of the eight orientations the maps in "
              "FrameBuffer::from_grids, ImageStream::to_original_coord and ImageMetadata::apply_orientation (forward and inverse) equal the "
              "EXIF definition, are mutually inverse and agree on the dimension swap; stream channels are pushed colour, black (cmyk only), "
